@@ -167,7 +167,171 @@ pub fn run_scenario(bench: &mut Bench, sc: &Scenario) -> ScenarioOutcome {
     out
 }
 
+
+// ---------------------------------------------------------------------------------
+// The game history given with `position` across interrupted searches (World U, step-driven)
+// ---------------------------------------------------------------------------------
+
+#[derive(Clone, Debug)]
+pub struct HistScenario {
+    pub position_line: String,
+    pub key_seed: u64,
+    /// forced-expiry read of each interrupted `go movetime`, in order
+    pub expiries: Vec<u64>,
+}
+
+impl HistScenario {
+    pub fn to_json(&self) -> Value {
+        json!({"history": {"position_line": self.position_line, "key_seed": self.key_seed, "expiries": self.expiries}})
+    }
+    pub fn from_json(v: &Value) -> Option<HistScenario> {
+        let v = v.get("history")?;
+        Some(HistScenario {
+            position_line: v["position_line"].as_str()?.to_string(),
+            key_seed: v["key_seed"].as_u64().unwrap_or(0),
+            expiries: v["expiries"].as_array()?.iter().filter_map(|x| x.as_u64()).collect(),
+        })
+    }
+}
+
+/// `position <start> moves <history with repetitions>`, then clock-limited `go`s cut at the
+/// given reads. The engine's record of the game must be what it was: same length, and the
+/// same repetition verdict for every legal successor of the current position.
+pub fn run_history(sc: &HistScenario, gen: &engine::move_gen::MoveGenerator) -> ScenarioOutcome {
+    use crate::usession::*;
+    let mut out = ScenarioOutcome::default();
+    let mut st = SimState::new(sc.key_seed, 0);
+    st.ev(&format!("cfg c06 history {}", sc.to_json()));
+    st.max_nodes_per_search = 3_000_000;
+    let (mut sess, o) = StepSession::start(st);
+    if o != Outcome::Returned {
+        out.violations.push(("crash".into(), format!("engine start: {:?}", o)));
+        return out;
+    }
+    let o = sess.cmd(&sc.position_line);
+    if o != Outcome::Returned {
+        out.violations.push(("crash".into(), format!("'{}': {:?}", sc.position_line, o)));
+        out.log_hash = sess.proc_.st.borrow().log_hash;
+        return out;
+    }
+    let root = sess.board();
+    let succ: Vec<(String, engine::board::Board)> = gen.generate_moves(&root).iter().map(|m| (m.to_algebraic(), root.clone_with_move(m))).collect();
+    let snapshot = |sess: &mut StepSession| -> Option<(usize, Vec<bool>)> {
+        let fl = sess.fl.as_mut().unwrap();
+        let (o, r) = sess.proc_.run(|| {
+            let s = fl.verif_searcher();
+            let len = s.verif_repetition_len();
+            let v: Vec<bool> = succ.iter().map(|(_, b)| s.verif_is_repetition_draw(&root, b)).collect();
+            (len, v)
+        });
+        if o != Outcome::Returned {
+            return None;
+        }
+        r
+    };
+    let Some((len0, v0)) = snapshot(&mut sess) else {
+        out.violations.push(("crash".into(), "repetition query before the search".into()));
+        return out;
+    };
+    out.probes.add("history_scenarios", 1);
+    out.probes.add("history_positions_recorded", len0 as u64);
+    if v0.iter().any(|x| *x) {
+        out.probes.add("history_scenarios_with_a_repeating_successor", 1);
+    }
+    for (i, j) in sc.expiries.iter().enumerate() {
+        {
+            let mut st = sess.proc_.st.borrow_mut();
+            let ord = st.searches.len() as u64;
+            st.clock.forced_expiry.push((ord, *j));
+        }
+        let o = sess.cmd(&format!("go movetime {}", HUGE_LIMIT.as_millis()));
+        match o {
+            Outcome::Returned => {}
+            Outcome::Aborted(Abort::NodeCap) => {
+                out.skipped = Some("step cap".into());
+                break;
+            }
+            o => {
+                out.violations.push(("crash".into(), format!("interrupted go {}: {:?}", i, o)));
+                break;
+            }
+        }
+        let interrupted = sess.proc_.st.borrow().searches.last().map(|s| s.first_expired_read.is_some()).unwrap_or(false);
+        if interrupted {
+            out.faults.add("deadline_expired_mid_search", 1);
+        }
+        let Some((len1, v1)) = snapshot(&mut sess) else {
+            out.violations.push(("crash".into(), "repetition query after the search".into()));
+            break;
+        };
+        if len1 != len0 {
+            out.violations.push((
+                "repetition_stack_changed".into(),
+                format!("after '{}' and a go cut at clock read {}: the engine's game record holds {} positions, before the search {}", shorten(&sc.position_line), j, len1, len0),
+            ));
+            break;
+        }
+        if let Some(k) = (0..v0.len()).find(|&k| v0[k] != v1[k]) {
+            out.violations.push((
+                "repetition_verdict_changed".into(),
+                format!("after '{}' and a go cut at clock read {}: move {} was {}a repetition draw before the search and is {}one after it", shorten(&sc.position_line), j, succ[k].0, if v0[k] { "" } else { "not " }, if v1[k] { "" } else { "not " }),
+            ));
+            break;
+        }
+    }
+    let st = sess.proc_.st.borrow();
+    out.log_hash = st.log_hash;
+    out.faults.add("forced_expiry", st.faults.forced_expiry);
+    out
+}
+
+fn shorten(l: &str) -> String {
+    if l.len() > 160 {
+        format!("{}...({} bytes)", &l[..160], l.len())
+    } else {
+        l.to_string()
+    }
+}
+
+pub fn gen_history_scenario(rng: &mut Rng) -> HistScenario {
+    use crate::rules::Pos;
+    let start = if rng.chance(1, 2) {
+        Pos::startpos()
+    } else {
+        let p = crate::gen::random_position(rng);
+        if p.is_valid() && !p.legal_moves().is_empty() { p } else { Pos::startpos() }
+    };
+    let root = if start == Pos::startpos() { "startpos".to_string() } else { format!("fen {}", fen_for_search(&start)) };
+    let mut moves = crate::c09::gen_history(rng, &start);
+    // the final position must have a legal move
+    loop {
+        let mut p = start.clone();
+        for m in &moves {
+            p = p.make(m);
+        }
+        if !p.legal_moves().is_empty() || moves.is_empty() {
+            break;
+        }
+        moves.pop();
+    }
+    let mut line = format!("position {}", root);
+    if !moves.is_empty() {
+        line.push_str(" moves ");
+        line.push_str(&crate::gen::moves_uci(&moves).join(" "));
+    }
+    let n = rng.range(1, 3);
+    HistScenario { position_line: line, key_seed: rng.next_u64(), expiries: (0..n).map(|_| rng.log_range(1, 4000)).collect() }
+}
+
 pub fn replay_value(v: &Value) -> Vec<Violation> {
+    if let Some(h) = HistScenario::from_json(v) {
+        let o = with_bench(|b| run_history(&h, &b.reference.gen));
+        return o
+            .violations
+            .into_iter()
+            .map(|(class, detail)| Violation { prop: "C06".into(), class, detail, scenario: h.to_json(), sim_index: 0, sim_seed: 0, log_hash: o.log_hash })
+            .collect();
+    }
     let Some(sc) = Scenario::from_json(v) else { return vec![] };
     with_bench(|b| {
         let o = run_scenario(b, &sc);
@@ -187,6 +351,45 @@ pub fn replay_value(v: &Value) -> Vec<Violation> {
 }
 
 pub fn shrink_value(v: &Value) -> Vec<Value> {
+    if let Some(h) = HistScenario::from_json(v) {
+        let mut out = vec![];
+        if h.expiries.len() > 1 {
+            for i in 0..h.expiries.len() {
+                let mut n = h.clone();
+                n.expiries.remove(i);
+                out.push(n.to_json());
+            }
+        }
+        for i in 0..h.expiries.len() {
+            let j = h.expiries[i];
+            for c in [1, j / 2, j.saturating_sub(1)] {
+                if c >= 1 && c < j {
+                    let mut n = h.clone();
+                    n.expiries[i] = c;
+                    out.push(n.to_json());
+                }
+            }
+        }
+        // shorter histories: drop moves from the front by re-rooting is not sound for a
+        // repetition history; drop them from the back in pairs
+        if let Some(idx) = h.position_line.find(" moves ") {
+            let head = &h.position_line[..idx];
+            let ms: Vec<&str> = h.position_line[idx + 7..].split_whitespace().collect();
+            for keep in [ms.len() / 2, ms.len().saturating_sub(2), ms.len().saturating_sub(1)] {
+                if keep < ms.len() {
+                    let mut n = h.clone();
+                    n.position_line = if keep == 0 { head.to_string() } else { format!("{} moves {}", head, ms[..keep].join(" ")) };
+                    out.push(n.to_json());
+                }
+            }
+        }
+        if h.key_seed != 0 {
+            let mut n = h.clone();
+            n.key_seed = 0;
+            out.push(n.to_json());
+        }
+        return out;
+    }
     let Some(sc) = Scenario::from_json(v) else { return vec![] };
     let mut out = vec![];
     if sc.really_new {
@@ -388,6 +591,25 @@ pub fn run(ctx: &Ctx) -> i32 {
                     }
                 }
             }
+            // the game history given with `position`, across interrupted `go`s (World U)
+            let nh = match ctx.tier {
+                Tier::Quick => 6,
+                Tier::Thorough => 40,
+            };
+            for _ in 0..nh {
+                let h = gen_history_scenario(&mut rng);
+                let o = run_history(&h, &bench.reference.gen);
+                res.evaluations += 1;
+                log_hash = fnv1a(log_hash, &o.log_hash.to_le_bytes());
+                res.probes.merge(&o.probes);
+                res.faults.merge(&o.faults);
+                res.distinct.push(hash_str(&h.to_json().to_string()));
+                for (class, detail) in o.violations {
+                    if first_violation_per_class.insert(class.clone(), ()).is_none() {
+                        res.violations.push(Violation { prop: "C06".into(), class, detail, scenario: h.to_json(), sim_index: i, sim_seed: seed, log_hash: o.log_hash });
+                    }
+                }
+            }
             if i < 4 {
                 res.sample = Some(json!({"fen": fen, "depth": depth, "reads_of_uninterrupted_search": total_reads,
                     "expiry_points_run": points.len(), "exhaustive_in_crash_point_dimension": exhaustive,
@@ -399,7 +621,7 @@ pub fn run(ctx: &Ctx) -> i32 {
     });
     let ev = Evidence {
         level: "fault_enumeration",
-        rule: "Positions from seeded playouts of the rules model (kept when the unpruned reference fits its node budget), depth 1..3. Crash point = index j of the clock read at which the deadline first reads expired (forced-expiry clock). Quick: j in 1..32, every iteration boundary +-4, 64 seeded j per position; thorough: every j in 1..R for positions with R<=6000 reads (exhaustive in the crash-point dimension for that position) else 400 seeded j; plus sequences of 2-3 interruptions, other key sets, and really fresh engines. After each interrupted search: history length unchanged and every cached claim about a position of the tree (interior nodes; horizon positions too, should the engine cache them) audited against the reference; then a completed search must report M and a move attaining it. A case = (position, depth, expiry sequence); all are non-trivial.".into(),
+        rule: "Positions from seeded playouts of the rules model (kept when the unpruned reference fits its node budget), depth 1..3. Crash point = index j of the clock read at which the deadline first reads expired (forced-expiry clock). Quick: j in 1..32, every iteration boundary +-4, 64 seeded j per position; thorough: every j in 1..R for positions with R<=6000 reads (exhaustive in the crash-point dimension for that position) else 400 seeded j; plus sequences of 2-3 interruptions, other key sets, and really fresh engines. After each interrupted search: history length unchanged and every cached claim about a position of the tree (interior nodes; horizon positions too, should the engine cache them) audited against the reference; then a completed search must report M and a move attaining it. Besides, per position a few World-U sessions: `position <start> moves <history with planted repetitions>` followed by 1-3 `go movetime` cut at seeded clock reads; after each, the engine's game record must have the same length and give the same repetition verdict for every legal successor as before the search. A case = (position, depth, expiry sequence) or (position command, expiry sequence); all are non-trivial.".into(),
         extra: serde_json::Map::new(),
         assumptions: vec![
             "reference M takes the engine's move generator, make_move, static evaluation and full-window quiescence as given".into(),
